@@ -227,20 +227,20 @@ class NamespaceMapper(MutableMapping[str, str]):
                 self.namespaces.update(xmlns)
                 if level:
                     self._reverse.update((v, k and k + ':') for k, v in xmlns)
-
-                    # A prefix that has been rebound must not be used anymore
-                    # for mapping the names of the namespace that it leaves.
-                    for uri, prefix in list(self._reverse.items()):
-                        if self.namespaces.get(prefix[:-1]) != uri:
-                            for k, v in self.namespaces.items():
-                                if v == uri:
-                                    self._reverse[uri] = k and k + ':'
-                                    break
-                            else:
-                                del self._reverse[uri]
                 else:
                     self._reverse.update((v, k and k + ':') for k, v in reversed(xmlns)
                                          if v not in self._reverse)
+
+                # A prefix that has been rebound must not be used anymore
+                # for mapping the names of the namespace that it leaves.
+                for uri, prefix in list(self._reverse.items()):
+                    if self.namespaces.get(prefix[:-1]) != uri:
+                        for k, v in self.namespaces.items():
+                            if v == uri:
+                                self._reverse[uri] = k and k + ':'
+                                break
+                        else:
+                            del self._reverse[uri]
                 return xmlns
 
             elif not level or self.xmlns_processing == 'collapsed':
